@@ -6,7 +6,7 @@ from tokutil import *  # noqa
 import h1tok_util as H
 
 ID = "C01"
-LEAN_MODULE = ["SCoda.Props.C01", "SCoda.Props.C01b", "SCoda.Props.C01Glue", "SCoda.Props.C02", "SCoda.Props.C01c", "SCoda.Props.TokTie", "SCoda.Props.C01n", "SCoda.Props.UtilTie", "SCoda.Props.Defs"]
+LEAN_MODULE = ["SCoda.Props.C01", "SCoda.Props.C01b", "SCoda.Props.C01Glue", "SCoda.Props.C02", "SCoda.Props.C01c", "SCoda.Props.TokTie", "SCoda.Props.TokTie2", "SCoda.Props.TokTie3", "SCoda.Props.C01n", "SCoda.Props.UtilTie", "SCoda.Props.Defs"]
 LEVEL = "proof"
 CLAUSES = [
     ("every token tokenise emits is in the vocabulary, and decode(encode(tokens)) = tokens",
@@ -37,8 +37,8 @@ CLAUSES = [
      "piece does not end in a rest and its end lies beyond the bar of the last onset), every detokenised sequence lasts exactly `lastBarEnd`: the piece length rounded up on "
      "the grid built from the signature changes alone; without the tail exclusion refuted (known finding D15)",
      ["SCoda.C01c.duration_no_tail", "SCoda.C01c.duration_piece", "SCoda.C01c.duration_statement_false"]),
-    ("TIE BY TRANSLATION, tokeniser: MultiTrackLargeVocabularyNotelikeTokeniser is re-translated statement by statement on every run (Gen/TokFns.lean, tools/py2lean_tok.py: __init__, _construct_dictionary, tokenise with its closure _apply_rest as a fuelled loop, detokenise, get_info, encode, decode; f-strings as string concatenation, dicts as association lists, floats as exact rationals) and each translation is proved equal to the hand model the theorems above are about, on rendered token strings: tokenise (called with insert_bar_token = True and flag_running_time_signature = True, the defaults; stated for extract at the library's PPQN — the property theorems are about extract at the tokeniser's own ppqn, for ppqn ≠ 24 tie and property theorems do not compose formally and the sampled correspondence is what links them) = tokeniseCore on extract (track count = num_tracks, state denominator ≠ 0, 0 ≤ ppqn·4·n — the excluded points raise in the source, proved: tokenise_wrong_length, tokenise_zero_denominator; the unrestricted statement is refuted), detokenise = model detokenise (0 ≤ ppqn, natural-number token fields), encode / decode = the model's id maps",
-     ["SCoda.TokTie.tokenise_eq", "SCoda.TokTie.tokenise_eq'", "SCoda.TokTie.tokenise_fresh", "SCoda.TokTie.tokenise_fresh'", "SCoda.TokTie.tokenise_none", "SCoda.TokTie.stOfDict_nil", "SCoda.TokTie.tokenise_wrong_length", "SCoda.TokTie.tokenise_zero_denominator", "SCoda.TokTie.tokenise_eq_statement_false", "SCoda.TokTie.detokenise_eq", "SCoda.TokTie.detokenise_step", "SCoda.TokTie.encode_eq", "SCoda.TokTie.decode_eq", "SCoda.TokTie.tokInit_eq'"]),
+    ("TIE BY TRANSLATION, tokeniser: MultiTrackLargeVocabularyNotelikeTokeniser is re-translated statement by statement on every run (Gen/TokFns.lean, tools/py2lean_tok.py: __init__, _construct_dictionary, tokenise with its closure _apply_rest as a fuelled loop, detokenise, get_info, encode, decode; f-strings as string concatenation, dicts as association lists, floats as exact rationals) and each translation is proved equal to the hand model the theorems above are about, on rendered token strings: tokenise, called with the DEFAULT flags insert_bar_token = True and flag_running_time_signature = True (proved to be the defaults of the signature as written in the source: tokenise_defaults; flag_running_time_signature = False raises NotImplementedError for every input: tokenise_not_running; the hand model has no insert_bar_token parameter, so the property theorems of this file are about the default flags only; the generated tokenise is tied for BOTH values of the flag: insert_bar_token = False returns the tokens of the default call with the bar tokens deleted, the same state and the same exception class — tokenise_eq_flag, tokenise_eq_flag_gen, tokenise_no_bar, tokenise_fresh_flag_gen), = tokeniseCore of the object's configuration on extract at the tokeniser's OWN ppqn, for every ppqn (tokenise_eq_gen, tokenise_fresh_gen; hypotheses: tracks with non-negative waits and no INTERNAL message = OkRel, as in every theorem above, track count = num_tracks, state denominator ≠ 0, 0 ≤ ppqn·4·n, and — on the INPUT messages — every time signature has a non-zero denominator and 0 ≤ ppqn·4·numerator; the excluded points raise in the source, proved: tokenise_wrong_length, tokenise_zero_denominator; the unrestricted statement is refuted). The source takes the bar capacities from self.ppqn but the length of an imputed note-off from the module constant PPQN (get_interleaved_message_pairings is called without standard_length): for every input, OkRel or not, the code is tokeniseCore on extract at PPQN = 24 (tokenise_eq_in); the two agree on OkRel tracks because merge normalises every unclosed note away (TokPpqnL.extract_ppqn_irrel, TokPpqnL.final_wf_any) and DISAGREE on a track with a negative wait (extract_ppqn_statement_false, negwait_code_vs_model: a tokeniser with ppqn = 48 emits val_24 where the hand model on extract 48 says val_48; replayed on the implementation; outside the domain of every property theorem). The composition is carried out for the note round trip: tokenise_roundtrip_gen is C01c.roundtrip_piece about the TRANSLATED tokenise / detokenise, for every ppqn > 0, detokenise = model detokenise (0 ≤ ppqn, natural-number token fields), encode / decode = the model's id maps",
+     ["SCoda.TokTie.tokenise_eq", "SCoda.TokTie.tokenise_eq'", "SCoda.TokTie.tokenise_fresh", "SCoda.TokTie.tokenise_fresh'", "SCoda.TokTie.tokenise_none", "SCoda.TokTie.stOfDict_nil", "SCoda.TokTie.tokenise_wrong_length", "SCoda.TokTie.tokenise_zero_denominator", "SCoda.TokTie.tokenise_eq_statement_false", "SCoda.TokTie2.tokenise_eq_in", "SCoda.TokTie2.tokenise_eq_gen", "SCoda.TokTie2.tokenise_fresh_gen", "SCoda.TokPpqnL.extract_ppqn_irrel", "SCoda.TokPpqnL.final_wf_any", "SCoda.TokTie2.extract_ppqn_statement_false", "SCoda.TokTie2.negwait_code_vs_model", "SCoda.TokTie2.tokenise_not_running", "SCoda.TokTie2.tokenise_defaults", "SCoda.TokTie3.tokenise_eq_flag", "SCoda.TokTie3.tokenise_eq_flag_gen", "SCoda.TokTie3.tokenise_no_bar", "SCoda.TokTie3.tokenise_fresh_flag_gen", "SCoda.TokTie2.tokens_okD", "SCoda.TokTie2.tokenise_roundtrip_gen", "SCoda.TokTie.detokenise_eq", "SCoda.TokTie.detokenise_step", "SCoda.TokTie.encode_eq", "SCoda.TokTie.decode_eq", "SCoda.TokTie.tokInit_eq'"]),
     ("duration on the exact complement of D15's failing class (audit round 2 A4a): no detokenised sequence ever lasts longer than the end of the last bar; outside HasTail' (= HasTail and the latest note end is not the end of the last bar) the longest sequence lasts exactly that long (one-track piece: the sequence), and sequence i does whenever a note of track i ends there; 'every sequence' and 'end of the piece on a bar end' are refuted (two tracks [0,96)/[0,24): library durations 96/24; note [0,48)+rest+key signature at 96: library duration 48)",
      ["SCoda.C01n.duration_no_tail'", "SCoda.C01n.duration_no_tail_single", "SCoda.C01n.duration_seq", "SCoda.C01n.duration_le", "SCoda.C01n.duration_each_statement_false", "SCoda.C01n.duration_pieceEnd_statement_false"]),
     ("TIE BY TRANSLATION, numeric helpers: scoda/misc/util.py is re-translated statement by statement on every run (Gen/UtilFns.lean, tools/py2lean_util.py: one operator of the PyNum int/float tower per Python operator — floats as exact rationals, no rounding modelled —, range/enumerate/zip/comprehensions, while with proved fuel, numpy.digitize(right=True) modelled explicitly) and tied to the hand models and to the dumped tables: bin_velocity = the model's binIndex for ascending bins (refuted for descending / non-monotone bin lists, where the code answers through numpy.digitize or raises ValueError: replayed), get_velocity_bins for every n ≠ 0 and the default bins evaluated from the translated source = the dumped table; velocity_from_bin, digitise_velocity, minmax against independent arithmetic specifications",
@@ -51,7 +51,7 @@ RULE = ("valid multi-track pieces (1-3 tracks, 1-5 bars, <=3 notes per bar and t
         "bins 1..16, pitch ranges (21,108)/(0,127)/narrow ranges at both ends, default steps/values; about a quarter of the cases off the defaults: custom and unsorted step "
         "lists, a step above ppqn, three-digit steps, repeated list entries, custom note-value sets, ppqn 12/48/96, input tracks written on channels other than 0); "
         "non-trivial = at least 2 notes and (2 tracks or a signature change)")
-ASSUMPTIONS = ["models: SCoda.tokeniseCore/detokenise/vocabSeq + extract glue (merge, normalise, interleaved), tied by translation (TokTie for the tokeniser class on rendered tokens and default call flags, AbsTie2 / RelTie2 / ViewTie for the glue) and, on the same inputs, by the sampled correspondence",
+ASSUMPTIONS = ["models: SCoda.tokeniseCore/detokenise/vocabSeq + extract glue (merge, normalise, interleaved), tied by translation (TokTie / TokTie2 for the tokeniser class on rendered tokens, default call flags, any ppqn, AbsTie2 / RelTie2 / ViewTie for the glue) and, on the same inputs, by the sampled correspondence",
                "token text is proved (C02b.parse_render, Defs.render_injective_all) for rendered tokens; arbitrary strings only on the class Defs.detokenise_strings_partial names"]
 
 
